@@ -17,6 +17,7 @@ var (
 	localPool  = []string{"a", "b", "n", "k", "v", "acc", "tmp", "val", "item", "res", "x1", "x2", "x3", "max", "first", "f", "helper", "counter"}
 	fnPool     = []string{"f", "g", "h", "helper", "run", "calc", "step", "get-val", "apply-fn", "acc", "val", "x1", "x2", "tmp", "is-ok?", "bump!"}
 	gvarPool   = []string{"counter", "*state*", "limit", "table", "v", "k", "x3", "x4", "base", "helper"}
+	typePool   = []string{"point", "pair", "box", "acc", "helper", "item", "f", "table"}
 	macroPool  = []string{"with-val", "my-when", "twice", "m", "wrap", "calc", "def-thing"}
 	tmplPool   = []string{"t1", "t2", "tv", "x1", "x2"}
 	dataPool   = []string{"alpha", "beta", "gamma", "delta", "foo", "bar"}
@@ -66,6 +67,8 @@ type gen struct {
 	trig           map[string]bool // which known-defect triggers this case may use
 	ndrv           int
 	lead           *leadInfo // where the first definition of the current file landed
+	pkgList        []*pkg    // every package of the session, in creation order
+	inFile         []*pkg    // packages with a completed section in the current file
 	twin           *leadInfo // make the current file's first definition coincide with this one
 }
 
@@ -105,6 +108,19 @@ func (g *gen) pick(xs []string) string {
 	return xs[g.intn(len(xs))]
 }
 func (g *gen) feat(f string) { g.feats[f] = true }
+
+// may decides whether the construct guarded by trigger tr is produced here
+// (pct = rate at this decision point).  The decision is drawn whether or not
+// the case opted into the trigger; a wanted-but-excluded construct is counted
+// as feat "skip/<trigger>", so the evidence shows how often the exclusion bit.
+func (g *gen) may(tr string, pct int) bool {
+	want := g.chance(pct)
+	if want && !g.trig[tr] {
+		g.feat("skip/" + tr)
+		return false
+	}
+	return want
+}
 
 func (g *gen) newID() int { g.nid++; return g.nid }
 
@@ -195,6 +211,13 @@ func (g *gen) ref(c cand, ctx string) {
 			g.feat("import-from-other-file")
 			ctx = "imported-other-file"
 		}
+	}
+	if c.b.nested != "" && !specificCtx[ctx] {
+		// the definition sits inside a top-level let / progn
+		ctx = "ref-to-nested-def"
+	}
+	if (c.b.name == "test" || c.b.name == "test-let") && (ctx == "call" || ctx == "") {
+		ctx = "call-of-head-special-cased"
 	}
 	g.e.sym(Occ{N: name, R: "ref", B: c.b.id, K: c.b.kind, C: ctx})
 }
